@@ -21,16 +21,16 @@ CHECKS = {
  "C14": ("StreamLab", "PBT with parse-back: output of Normalize<Basic|Libtest|Json|JUnit> for generated streams (Basic with colours off and, rendered through a VT interpreter, with colours on) is parsed by hand-written line / RFC 8259 JSON / XML 1.0 parsers into fact multisets and compared with the stream's facts in both directions; well-formedness, started/result pairing and suite totals checked, incl. the [Summary] totals of the default terminal reporter Summarize<Normalize<Basic>> against the report's entries",
          "Every executed step, failed hook and parser error appears exactly once with the right status and message, nothing else appears, documents are well-formed and totals agree with entries, for generated streams with decorated names, path-less features, same-named scenarios, retries, hook failures and reporter options. Known finding D7 (JUnit drops the output of skipped testcases) is reported as KNOWN-FINDING.",
          "Message identity is checked through generated unique tokens; libtest totals follow reading R4.", "6/C14"),
- "C13": ("StreamLab", "PBT with a reference interpreter of 20 compiled writer nestings (FailOnSkipped/Repeat/Tee/Or/discard) over recorder leaves; arbitrary (also non-contract) streams; stats algebra checked with arbitrary leaf stats",
+ "C13": ("StreamLab", "PBT with a reference interpreter of 20 compiled writer nestings (FailOnSkipped/Repeat/Tee/Or/discard) over recorder leaves, replaced by their clone in mid-run in every other case; arbitrary (also non-contract) streams; stats algebra checked with arbitrary leaf stats",
          "Every recorder leaf's exact event/write sequence and the combined statistics equal the reference interpreter's prediction for generated streams and all zoo nestings.",
          "Nestings are a fixed zoo of 20 type-checking compositions.", "6/C13"),
- "C02": ("RunnerLab", "model-based PBT: generated features x outcome plans x harness-owned schedules against the real runner; per-attempt reference automaton + fault accounting; proptest generation/shrinking; bounded-exhaustive schedule DFS for small cases",
+ "C02": ("RunnerLab", "model-based PBT: generated features x outcome plans x harness-owned schedules against the real runner; per-attempt reference automaton + fault accounting; proptest generation/shrinking; bounded-exhaustive schedule DFS for small cases; a second campaign applies the automaton to the crate built with its `tracing` feature (vtrace: no event of an attempt, Log included, after its Finished)",
          "Every attempt observed in thousands of generated runs (all outcome kinds at every position, hooks, retries, concurrent interleavings chosen by the harness) equals the prediction of an independent reference model of one attempt; all schedules of small cases enumerated. Exploration: evidence within the generated bounds, no proof.",
          "Shared background steps / World::new are judged by admissibility + global accounting. Trusts the harness driver and the 60-line model.", "6/C02"),
  "C03": ("RunnerLab", "PBT with validity predicate over the whole event stream (framing / bracket nesting / ParsingFinished counts) under generated parser behaviours and schedules; exhaustive schedules of small cases; a second campaign applies the same predicate to the crate built with its `tracing` feature (vtrace: log bursts, child spans outliving their step, logs from detached threads)",
          "Validity predicate over the full stream for generated feature sets (empty features/rules, parser errors, lazy delivery, retries, fail-fast) under harness-chosen completion orders.",
          "ParsingFinished.steps compared with scenario steps only (reading R3).", "6/C03"),
- "C04": ("RunnerLab", "PBT over lazy parser streams (items behind gates released at harness-chosen quiescent points) with set-equality oracle, bounded-progress termination criteria (H1 idle-turn hook, stall detection) and a resumption invariant (every future whose gate the schedule opened has been polled again before the runner goes quiet); a second campaign judges termination on the crate built with its `tracing` feature (vtrace, callbacks leaving child spans alive)",
+ "C04": ("RunnerLab", "PBT over lazy parser streams (items behind gates released at harness-chosen quiescent points) with set-equality oracle, bounded-progress termination criteria (H1 idle-turn hook, stall detection), a starvation predicate (a ready scenario with a free slot is started without waiting for the attempts in flight) and a resumption invariant (every future whose gate the schedule opened has been polled again before the runner goes quiet); a second campaign judges termination on the crate built with its `tracing` feature (vtrace, callbacks leaving child spans alive)",
          "Started set == supplied set, and termination judged by logical criteria (idle-turn hook, stall with nothing pending) over generated parser delays, retry delays and schedules. Liveness is checked as bounded progress only.",
          "Termination = bounded progress; H1 hook limit 10000 idle turns per poll.", "6/C04"),
  "C05": ("RunnerLab", "PBT with chain model over per-attempt outcome sequences (budget from tags/CLI/builder/closure), sound lower bound on retry delay from harness clock; clock-free stall check (woken callbacks of other attempts are resumed while a retry delay is outstanding)",
@@ -63,7 +63,7 @@ CHECKS = {
  "C18": ("FuncLab+RunnerLab", "exhaustive enumeration of the 28 800-case tag x CLI product plus PBT over random tags / durations / filter ASTs against a reference resolver; CLI-over-builder merge observed on real runs (tags mode) through the C05/C06/C08 oracles",
          "parse_from_tags equals the documented resolution on the complete product of tag forms, placements and CLI values and on random cases; merge of CLI and builder values is observed on generated real runs.",
          "Undocumented retry-prefixed tags only must not panic (R7).", "6/C18"),
- "C19": ("FuncLab", "PBT over step texts against a compiled zoo of 35 attribute/function pairs with hand-written reference matchers and argument decoders, and against a second zoo of 40 functions generated at build time (harness/build.rs, VERIF_ZOO_SEED; thorough tier: seeds 0..6) with a generic reference computed from the generator's metadata; inventory counted per keyword",
+ "C19": ("FuncLab", "PBT over step texts (looked up through World::collection() and through its clone) against a compiled zoo of 42 attribute/function pairs with hand-written reference matchers and argument decoders, and against a second zoo of 40 functions generated at build time (harness/build.rs, VERIF_ZOO_SEED; thorough tier: seeds 0..6) with a generic reference computed from the generator's metadata; inventory counted per keyword",
          "Registration (count per keyword, reachability), literal / regex / expr matching as written, typed argument delivery in declaration order, slices, #[step] argument, custom Parameters, and failure on parse errors / returned Err hold for the zoo over generated and mutated texts.",
          "The quantifier over programs is a fixed representative zoo plus build-time generated zoos (macro expansion is compile time).", "6/C19"),
  "C20": ("vtrace", "PBT with token accounting: generated RunnerLab cases whose callbacks emit uniquely tokenised tracing events before and after gate awaits; real Cucumber::run with init_tracing() polled by hand in one child process per case under harness-chosen schedules",
@@ -97,7 +97,7 @@ manifest = {
         "add_only": True,
     },
     "engines": [
-        {"name": "RunnerLab", "path": "/verif/harness/src/lab", "serves_properties": [p for p in all_ids if p in CHECKS and "RunnerLab" in CHECKS[p][0]], "kind_free_text": "real runner::Basic polled by a hand-written executor; gates in user callbacks and parser stream; schedule is a generated input"},
+        {"name": "RunnerLab", "path": "/verif/harness/src/lab", "serves_properties": [p for p in all_ids if p in CHECKS and "RunnerLab" in CHECKS[p][0]], "kind_free_text": "real runner::Basic polled by a hand-written executor (a third of the cases through the Cucumber facade, builder calls in permuted order); gates in user callbacks and parser stream; schedule is a generated input"},
         {"name": "StreamLab", "path": "/verif/harness/src/stream", "serves_properties": [p for p in all_ids if p in CHECKS and "StreamLab" in CHECKS[p][0]], "kind_free_text": "generated contract-abiding event streams fed to the real writers"},
         {"name": "vtrace", "path": "/verif/harness-tracing", "serves_properties": ["C20"], "kind_free_text": "RunnerLab driver over Cucumber::run with the tracing feature; one process per case"},
         {"name": "FuncLab", "path": "/verif/harness/src/func", "serves_properties": [p for p in all_ids if p in CHECKS and "FuncLab" in CHECKS[p][0]], "kind_free_text": "pure-function differential / reference-model checks"},
